@@ -436,6 +436,11 @@ def nt_multi_diag_line(sc, evs):
 def c11(run):
     q = run.tier == "quick"
     scs = []
+    # design level: hash-order emission + stable sort; (line, column) key must be deterministic, the line-only key must not
+    run.add_model("MC_Order", env={"KEY": "pos"}, workers=2)
+    neg = C.run_model_expect_violation("MC_Order", "Deterministic", wdir=run.wdir, env_extra={"KEY": "line"})
+    run.models.append({"module": "MC_Order", "env": {"KEY": "line"}, "negative_control": "Deterministic violated, as required",
+                       "distinct": neg.get("distinct", 0)})
     for s in run.add_model("MC_Validate", env={"FAMILY": "order", "TIER": run.tier}):
         for rep in range(2 if q else 6):
             scs.append(F.determinism_scenario(s["files"], "mc-order", run.rng, layout="oneline", procs=2 if q else 3))
